@@ -110,6 +110,15 @@ Definition attach_cdict (ms : matchState) (cdictEnd cdictDictLimit : Z) : matchS
     let w1 := if dictLimit w <? cdictEnd then window_clear (set_nextSrc w (base w + cdictEnd)) else w in
     mkMS w1 (dictLimit w1) (ms_nextToUpdate ms) true (ms_hashLog3 ms) (ms_dds ms) (ms_tables ms).
 
+(* block mode (ZSTD_compressContinue_internal with frame == 0) has no ZSTD_checkDictValidity(); since /repo 00d59f3
+   the second half of its test is applied after the correction:
+     if (ms->loadedDictEnd != ms->window.dictLimit) ms->dictMatchState = NULL;
+   (a non-contiguous segment ends the validity of an attached dictionary) *)
+Definition block_mode_dict_check (ms : matchState) : matchState :=
+  mkMS (ms_window ms) (ms_loadedDictEnd ms) (ms_nextToUpdate ms)
+       (if ms_loadedDictEnd ms =? dictLimit (ms_window ms) then ms_dms ms else false)
+       (ms_hashLog3 ms) (ms_dds ms) (ms_tables ms).
+
 Inductive op : Type :=
 | OpBegin (p : cparams) (hashLog3 : Z) (ldm : bool) (forced : bool) (lit ldmLit : Z)
           (loadedDictSize : Z) (dict : option dictload)
@@ -237,7 +246,7 @@ Definition step (frequently : bool) (h : hstate) (o : op) : hstate :=
       else
         let h1 := continue_update h src size in
         let '(ms2, _) := overflowCorrectIfNeeded frequently (h_ms h1) (h_params h1) src (src + size) in
-        let '(ms3, first') := block_search_effect (h_params h1) ms2 (h_optFirst h1) src size in
+        let '(ms3, first') := block_search_effect (h_params h1) (block_mode_dict_check ms2) (h_optFirst h1) src size in
         mkH ms3 (h_ldm h1) (h_params h1) (h_forceNC h1) first'
   | OpFinder ntu t =>
       let ms := h_ms h in
